@@ -278,7 +278,9 @@ func (c *updater) setAuthExternal(config ConfigValueGetter, auth *hatypes.AuthEx
 func (c *updater) buildBackendAuthExternal(d *backData) {
 	for _, path := range d.backend.Paths {
 		config := d.mapper.GetConfig(path.Link)
-		isBackend := config.Get(ingtypes.BackAuthExternalPlacement).ToLower() == "backend"
+		// anything but frontend is the default placement: an unknown value
+		// must not leave the declared authentication unconfigured
+		isBackend := config.Get(ingtypes.BackAuthExternalPlacement).ToLower() != "frontend"
 		url := config.Get(ingtypes.BackAuthURL)
 		if isBackend && url.Value != "" {
 			c.setAuthExternal(config, &path.AuthExternal, url)
